@@ -374,9 +374,16 @@ def check_memo(prog: Program, res: Result) -> None:
                 if isinstance(c, ast.Compare) and any(norm(x) == "self.cache_lf[0]" for x in [c.left] + c.comparators):
                     n += 1
                     other = [norm(x) for x in [c.left] + c.comparators if norm(x) != "self.cache_lf[0]"]
-                    res.ob(R, other == [key] and isinstance(c.ops[0], ast.Eq), fi.qualname, f"memo hit tests the fetch index `{key}`",
+                    res.ob(R, other == [key] and isinstance(c.ops[0], (ast.Eq, ast.NotEq)), fi.qualname, f"memo hit tests the fetch index `{key}`",
                            f"`{short(c, 50)}` re-uses the memoised image when {other} matches, but the frame was fetched by `{key}`: two labelled frames that "
                            f"share {other} (same frame number in different videos) get the same image", f"{fi.module.relpath}:{c.lineno}")
+                    # the memo is refreshed on the MISS arm of that test
+                    host = getattr(c, "_parent", None)
+                    if isinstance(host, ast.If) and host.test is c:
+                        miss = host.orelse if isinstance(c.ops[0], ast.Eq) else host.body
+                        refreshed = any(isinstance(x, ast.Assign) and norm(x.targets[0]) == "self.cache_lf" for st_ in miss for x in ast.walk(st_))
+                        res.ob(R, refreshed, fi.qualname, "a miss re-reads the frame image and refreshes the memo",
+                               f"under `{short(c, 40)}` the memo is not refreshed on the miss arm: a stale image is used for a new frame", f"{fi.module.relpath}:{c.lineno}")
             for st in walk_function(fi.node):
                 if isinstance(st, ast.Assign) and norm(st.targets[0]) == "self.cache_lf":
                     n += 1
